@@ -18,8 +18,8 @@ def wrap(body, how):
 def failing_bodies():
     B = []
     for e in ["1 / 0", "1 % 0", "1 << -1", "1u % 0u", "'a' % '\\x00'", "true % 0", "[1][5]", "[1, 2][1:0]", "\"abc\"[2:1]", "undefined()", "5()", "\"s\" - 1",
-              "{}.a.b.c()", "[1][\"x\"]", "int(\"zz\")", "len()", "append()", "gopanic()", "gopanicnil()", "goindex()", "goerr()", "-\"s\"", "[1][0:9]", "{a: 1}.a.b.c.d"]:
-        B.append(("expr:" + e, "global (gopanic, gopanicnil, goindex, goerr)\nreturn %s" % e))
+              "{}.a.b.c()", "[1][\"x\"]", "int(\"zz\")", "len()", "append()", "gopanic()", "gopanicnil()", "goindex()", "goerr()", "gopanicerr()", "gopanictnil()", "gopanicbad()", "gopanicobj()", "gopanicstruct()", "gopanicmap()", "-\"s\"", "[1][0:9]", "{a: 1}.a.b.c.d"]:
+        B.append(("expr:" + e, "global (gopanic, gopanicnil, goindex, goerr, gopanicerr, gopanictnil, gopanicbad, gopanicobj, gopanicstruct, gopanicmap)\nreturn %s" % e))
     for n in (1000, 1020, 1021, 1022, 1023, 1024, 1025, 3000):
         B.append(("depth-%d" % n, "var f\nf = func(n) { if n == 0 { return 1 / 0 }; return f(n - 1) + 1 }\nreturn f(%d)" % n))
         B.append(("depth-ok-%d" % n, "var f\nf = func(n) { if n == 0 { return 1 }; return f(n - 1) + 1 }\nreturn f(%d)" % n))
